@@ -550,6 +550,13 @@ Definition from_save (c : schunk) : sres (list (option (sect wcont)) * hmaps * l
   | SErr => SErr | SPanic w => SPanic w
   | SOk ss =>
       let n := lenN (sc_secs c) in
+      (* since fix 7330cba: a present height map with the wrong number of longs is an error *)
+      match calc_size (hm_bits n) hm_len with
+      | None => SPanic pRt
+      | Some want =>
+      if existsb (fun k => match hm_lookup k (sc_hm c) with
+                           | Some l => negb (Z.of_N (lenN l) =? want)%Z | None => false end)
+                 [kWSWG; kWS; kOFWG; kOF; kMB; kMBNL] then SErr else
       let nh k := new_hm_save n (hm_lookup k (sc_hm c)) in
       match nh kWS, nh kWSWG, nh kOFWG, nh kOF, nh kMB, nh kMBNL with
       | SOk ws, SOk wswg, SOk ofwg, SOk of_, SOk mb, SOk mbnl =>
@@ -561,6 +568,7 @@ Definition from_save (c : schunk) : sres (list (option (sect wcont)) * hmaps * l
       | _, _, _, _, SPanic w, _ => SPanic w
       | _, _, _, _, _, SPanic w => SPanic w
       | _, _, _, _, _, _ => SErr
+      end
       end
   end.
 End Save.
